@@ -285,7 +285,9 @@ fn check_stream(cfg: &Cfg, st: &mut St, s: &Stream, n: usize) {
     }
     // (B) Pending patterns on the small chunkings
     if cfg.pend_bound > 0 {
-        for sizes in small.iter().take(40) {
+        // quick tier: 16 chunkings for streams of three messages (40 otherwise and in the thorough tier)
+        let take = if cfg.pend_bound == 1 && s.msgs.len() >= 3 { 16 } else { 40 };
+        for sizes in small.iter().take(take) {
             // reference for this part: the same chunking without suspension
             let (_, r) = proc_obs(n, bytes, sizes, Pattern::NONE);
             let leaves = exec::leaves();
@@ -581,6 +583,7 @@ fn main() {
                "arbitrary_token_streams": {"count": n_lex, "max_tokens": if thorough { 4 } else { 3 }, "N": lex_ns, "chunkings": "all compositions"}, "all_compositions_up_to_bytes": cfg.full_comp, "cuts_beyond": cfg.cuts,
                "zero_length_reads": "one inserted at every position of every <=2-cut chunking (short streams); first/last (long)",
                "pending_deviation_bound": cfg.pend_bound,
+               "pending_chunkings_per_stream": "the first 40 chunkings with <=2 cuts (quick tier: 16 for streams of three messages)",
                "stateless": {"stream_N_pairs": t.streams, "chunkings_executed": t.chunkings, "pending_runs": t.pending_runs, "clause_ii_checked": t.ii_checked},
                "merged_bfs": {"hook": cfg!(microscpi_verif), "N": bfs_ns, "streams": t.bfs_streams, "states": t.bfs_states, "edges": t.bfs_edges,
                               "terminal_states": t.bfs_terminals, "max_distinct_loop_states_at_one_position": t.bfs_max_states_per_pos,
